@@ -64,7 +64,8 @@ TREES = {
     "links": [F("r/a/f1"), F("r/a/b/f2"), F("outside/o1"), F("outside/od/o2"),
               S("r/lrel", "a/f1"), S("r/labs", "@TREE@/r/a/b/f2"), S("r/dangling", "nowhere"),
               S("r/drel", "a/b"), S("r/dabs", "@TREE@/r/a"), S("r/loop", "."), S("r/a/up", ".."),
-              S("r/out", "../outside"), S("r/outf", "../outside/o1"), S("r/a/chain", "../lrel")],
+              S("r/out", "../outside"), S("r/outf", "../outside/o1"), S("r/a/chain", "../lrel"),
+              S("r/viadots", "drel/../b/f2")],
     # absolute symlink targets that are not canonical: through another directory symlink, or containing '..'
     "links2": [F("r/real/x"), F("r/real/sub/y"), S("r/alias", "real"), S("r/abs_via_alias", "@TREE@/r/alias"),
                S("r/abs_dotdot", "@TREE@/r/real/../real/sub"), S("r/abs_file", "@TREE@/r/alias/x"), F("r/other/z")],
@@ -253,7 +254,9 @@ def ref_scan(cwd, roots, o):
                 select(path, excl)
                 return
             if L:
-                hop = os.path.normpath(os.path.join(os.path.dirname(path), os.readlink(path)))
+                # (no lexical normalisation: '..' after a component that is itself a link means the parent of the
+                # link's TARGET, as the kernel resolves it)
+                hop = os.path.join(os.path.dirname(path), os.readlink(path))
                 if stat.S_ISDIR(tst.st_mode):
                     tgt = os.path.realpath(hop)
                 else:
@@ -294,7 +297,7 @@ def ref_scan(cwd, roots, o):
             stack.pop()
 
     for r in roots:
-        ap = os.path.normpath(os.path.join(cwd, r))
+        ap = os.path.join(cwd, r)
         if os.path.isdir(ap):
             ap = os.path.realpath(ap)
             visit_dir(ap, 0, [], os.stat(ap).st_dev, False)
@@ -384,7 +387,9 @@ def pattern_options():
 
 
 ROOT_FORMS = [("single", ["r"]), ("repeated", ["r", "r"]), ("overlapping", ["r", "r/d1", "r/a", "r/v.2"]),
-              ("file_roots", None)]
+              ("file_roots", None),
+              # an input path that goes up again after a symbolic link to a directory elsewhere (tree links: drel -> a/b)
+              ("dotdot_after_link", ["r/drel/..", "r/out/../outside"])]
 
 
 def cases(tier, seed):
